@@ -310,11 +310,12 @@ Section AdditiveOT.
   (* does the receiver accept the message?  (independent of the pads V and of sc2) *)
   Definition pad_decodes (c : bool) (pad : bytes) : bool :=
     match scalar_unmarshal q nb (masked_pad c pad) with Some _ => true | None => false end.
+  Definition pads_ok_at (choices : bytes) (CP : list (bytes * bytes)) (i : nat) : bool :=
+    let cp := nth i CP ([], []) in
+    pad_decodes (bit_at i choices) (fst cp) && pad_decodes (bit_at i choices) (snd cp).
   Definition additive_msg_ok (choices : bytes) (CP : list (bytes * bytes)) : bool :=
     (length CP =? 8 * length choices)%nat
-    && forallb (fun i => let cp := nth i CP ([], []) in
-                         pad_decodes (bit_at i choices) (fst cp) && pad_decodes (bit_at i choices) (snd cp))
-               (seq 0 (8 * length choices)).
+    && forallb (pads_ok_at choices CP) (seq 0 (8 * length choices)).
 
   (* ---- the code BEFORE the repair (regression only).  The masking loops were
         for j := 0; j < len(msg.CombinedPads[j][w]); j++ { msg.CombinedPads[i][w][j] &= mask }
